@@ -8,18 +8,34 @@ from vlib.topo import SurfRef, TetRef, key
 from vlib.build import ints
 
 PROPERTY = "C02"
-RULE = ("Generated raw data: vertices (3-D, or 2-D through from_arrays), declared edges in either orientation incl. self-loops, "
+RULE = ("Sub-check normalise - generated raw data: vertices (3-D, or 2-D through from_arrays), declared edges in either orientation incl. self-loops, "
         "negative and >=N indices, faces of arity 3-7 (manifold surfaces from the shared generator, arbitrary index tuples, or faces "
         "with a repeated consecutive vertex whose side is a self-loop), cell soups and mixed tet/hex cells, "
         "tetrahedral cells (conforming meshes) or hexahedral grid cells, optionally pre-declared cell faces; edge attributes "
         "(5 types, arity 1-3, sparse or dense) set before construction; index rows as list / tuple / numpy row of int64 .. uint8; "
-        "completion switches and the duplicate-attribute switch on/off; "
-        "switches on/off; route = class constructor, _instanciate_raw_mesh_data, from_arrays, or reconstruction from a built mesh "
-        "once or twice. The finished object is compared with a normal form computed from the raw data alone. non-trivial = an "
-        "invalid declared edge carrying an attribute value, or cells sharing a face, or numpy rows, or a reconstruction step; "
+        "completion switches and the duplicate-attribute switch on/off; corner records of the declared faces and of the cells optionally "
+        "filled in by the producer of the raw data (as the importers do); "
+        "route = class constructor, _instanciate_raw_mesh_data, from_arrays, or reconstruction from a built mesh "
+        "once or twice. Sub-check file - the mesh is built from a FILE written by independent writers (vlib/ref_codecs + two small ones here): "
+        "format obj / off / medit .mesh / geogram_ascii / tet / xyz; content = points, polyline, surface (arity 3-7 as far as the format can "
+        "express it), arbitrary faces, declared edges next to faces, tetrahedra / hexahedra / both, and cells TOGETHER with declared faces "
+        "(all, some, rotated / reversed faces of the cells, or a face of no cell); for .off and .obj the element records in a drawn order "
+        "(faces first, cells first, interleaved; l records before / after / between f records); vertex records carrying more than three "
+        "numbers where the format allows it (obj: x y z w, x y z r g b, on all or some lines; medit: non-zero reference column; xyz: "
+        "normals); layout variations (blank lines, spacing, comments, float notation); completion switches on/off; via = load, "
+        "load(raw=True) + class constructor, load + reconstruction from the built mesh. "
+        "In both sub-checks the finished object is compared with a normal form computed from the raw data alone (for medit, whose blocks "
+        "are unordered, declared faces / cells are compared kind by kind). non-trivial = an "
+        "invalid declared edge carrying an attribute value, or cells sharing a face, or numpy rows, or a reconstruction step; for files: "
+        "two or more element kinds in one file, extra vertex columns, non-zero medit refs, or a via other than plain load; "
         "distinct = distinct raw inputs x route.")
 ASSUMPTIONS = ["faces have in-range vertices, pairwise distinct except in the degenerate-face class; declared edges are pairwise distinct as unordered pairs",
-               "with complete_faces_from_cells off every face of every cell is declared (cell-face records cannot exist otherwise)"]
+               "faces have at least three vertices (a two-vertex 'face' is no polygon: the OBJ description requires three references in an f record, "
+               "the library documents nothing for it and answers face_to_faces = the face itself / raises in face normals)",
+               "with complete_faces_from_cells off every face of every cell is declared (cell-face records cannot exist otherwise)",
+               "files: indices name existing vertices, declared edges are valid and distinct; an .off file holds no 4-vertex face (the importer's "
+               "documented dialect reads a 4-entry line as a tetrahedron, open finding F-C04-1) and plain 'x y z' vertex lines; stl and ply files are "
+               "not generated here (C04 covers the codecs); .off files may hold '2 a b' lines (declared edges, the importer has a branch for them; finding F-C02-6, fixed)"]
 
 PYTYPE = {"bool": bool, "int": int, "float": float, "complex": complex, "str": str}
 TET_FACES = [(1, 3, 2), (0, 2, 3), (3, 1, 0), (0, 1, 2)]
@@ -538,10 +554,10 @@ def fn(case, ctx):
 
 # ------------------------------------------------------------------ construction from a file
 
-# An .off line "2 a b" (a two-vertex element = a declared edge, for which parse_off_data has a branch of its own) makes load() raise
-# on the unchanged library (the two indices stay strings: TypeError in RawMeshData._prepare_edges); proposed repair
-# scratch/fixes/C02-r6-off-edge-lines.diff. The class is generated only when this is True.
-OFF_EDGE_LINES = False
+# An .off line "2 a b" (a two-vertex element = a declared edge, for which parse_off_data has a branch of its own) made load() raise
+# on the pinned library (the two indices stayed strings: TypeError in RawMeshData._prepare_edges): finding F-C02-6, repaired in /repo.
+# The class is generated when this is True.
+OFF_EDGE_LINES = True     # finding F-C02-6, fixed in /repo (ab907f0)
 
 FILE_KINDS = {
     "obj": ["surface", "anyfaces", "anyfaces", "edges+faces", "edges+faces", "polyline", "points"],
@@ -735,7 +751,7 @@ def fn_file(case, ctx):
     fmt = case["fmt"]
     nf = normal_form(case)
     nk = sum(1 for k in ("E", "F", "C") if case[k])
-    ctx.label("fmt=" + fmt, "file:kind=" + case["kind"], "file:via=" + case["via"],
+    ctx.label("fmt=" + fmt, "kind=" + case["kind"], "via=" + case["via"],
               f"complete_edges={case['complete_edges']}", f"complete_faces={case['complete_faces']}")
     if case["F"] and case["C"]:
         ctx.label("faces-and-cells")
@@ -784,5 +800,5 @@ def fn_file(case, ctx):
 
 
 SUBCHECKS = [SubCheck("normalise", raw_case(), fn, quick=3600, thorough=5000),
-             SubCheck("file", file_case(), fn_file, quick=900, thorough=1500)]
+             SubCheck("file", file_case(), fn_file, quick=700, thorough=1500)]
 MATCHERS = {}
